@@ -108,6 +108,11 @@ func c05Variants() []c05Variant {
 		{Name: "psk-aes128-cbc-cid", Suite: TLS_PSK_WITH_AES_128_CBC_SHA256, PSK: true, CCID: 5, SCID: 5},
 		{Name: "psk-chacha20-cid", Suite: TLS_PSK_WITH_CHACHA20_POLY1305_SHA256, PSK: true, CCID: 3, SCID: 1},
 		{Name: "ecdsa-aes128-ccm-cid", Suite: TLS_ECDHE_ECDSA_WITH_AES_128_CCM, CCID: 2, SCID: 2},
+		// DTLS 1.3 AEADs (unified record header): covered by the implementation-side monitors only
+		{Name: "v13-aes128-gcm", Suite: TLS_AES_128_GCM_SHA256, V13: true},
+		{Name: "v13-aes256-gcm", Suite: TLS_AES_256_GCM_SHA384, V13: true},
+		{Name: "v13-chacha20", Suite: TLS_CHACHA20_POLY1305_SHA256, V13: true},
+		{Name: "v13-aes128-gcm-cid", Suite: TLS_AES_128_GCM_SHA256, V13: true, CCID: 4, SCID: 3},
 	}
 }
 
@@ -119,6 +124,10 @@ func (v c05Variant) configs() (*dtlsConfig, *dtlsConfig) {
 		c, s = vCertPair()
 		c.CipherSuites = []CipherSuiteID{v.Suite}
 		s.CipherSuites = []CipherSuiteID{v.Suite}
+	}
+	if v.V13 {
+		c.MinVersion, c.MaxVersion = protocol.Version1_3, protocol.Version1_3
+		s.MinVersion, s.MaxVersion = protocol.Version1_3, protocol.Version1_3
 	}
 	if v.CCID > 0 || v.SCID > 0 {
 		c.ConnectionIDGenerator = RandomCIDGenerator(v.CCID)
@@ -351,6 +360,61 @@ func c05Mutants(rng *vRand, raw []byte, cidLen int, other []byte, budget int) (m
 	return muts, names
 }
 
+// mutations of a DTLS 1.3 record (unified header: flags, optional CID, 16-bit sequence, length)
+func c05Mutants13(rng *vRand, raw []byte, cidLen int, other []byte, budget int) (muts [][]byte, names []string) {
+	add := func(name string, b []byte) {
+		muts = append(muts, b)
+		names = append(names, name)
+	}
+	clone := func() []byte { return append([]byte(nil), raw...) }
+	hdr := 1 + 2 + 2
+	if raw[0]&recordlayer.UnifiedHeaderCIDBit != 0 {
+		hdr += cidLen
+	}
+	if hdr > len(raw) {
+		hdr = len(raw)
+	}
+	for i := 0; i < hdr*8; i++ {
+		m := clone()
+		m[i/8] ^= 1 << (i % 8)
+		add(fmt.Sprintf("hdrbit:%d", i), m)
+	}
+	body := len(raw) - hdr
+	for _, off := range []int{0, 1, 7, 15, body / 2, body - 17, body - 16, body - 9, body - 2, body - 1} {
+		if off < 0 || off >= body {
+			continue
+		}
+		m := clone()
+		m[hdr+off] ^= 1 << uint(rng.intn(8))
+		add(fmt.Sprintf("bodybit:%d", off), m)
+	}
+	add("truncate1", clone()[:len(raw)-1])
+	add("extend1", append(clone(), byte(rng.intn(256))))
+	if len(raw) > hdr+20 {
+		add("truncate-half", clone()[:hdr+body/2])
+	}
+	if other != nil {
+		add("splice-other-session", append([]byte(nil), other...))
+	}
+	if budget > 0 && len(muts) > budget {
+		keep := map[int]bool{}
+		for len(keep) < budget {
+			keep[rng.intn(len(muts))] = true
+		}
+		var m2 [][]byte
+		var n2 []string
+		for i := range muts {
+			if keep[i] {
+				m2 = append(m2, muts[i])
+				n2 = append(n2, names[i])
+			}
+		}
+		muts, names = m2, n2
+	}
+
+	return muts, names
+}
+
 func runC05(t *testing.T, v c05Variant, rng *vRand, nPayloads, budget, w int) c05Case {
 	t.Helper()
 	ccfg, scfg := v.configs()
@@ -432,7 +496,13 @@ func runC05(t *testing.T, v c05Variant, rng *vRand, nPayloads, budget, w int) c0
 		}
 	}
 	for i := range payloads {
-		muts, names := c05Mutants(rng, caps[i].Data, cidLen, caps2[i].Data, budget)
+		var muts [][]byte
+		var names []string
+		if v.V13 {
+			muts, names = c05Mutants13(rng, caps[i].Data, cidLen, caps2[i].Data, budget)
+		} else {
+			muts, names = c05Mutants(rng, caps[i].Data, cidLen, caps2[i].Data, budget)
+		}
 		for j := range muts {
 			arrive(muts[j], "mutant", names[j], -1)
 			if lab.Client.Conn.isConnectionClosed() {
